@@ -18,6 +18,9 @@ type AggrPlanField struct {
 	FuncExprs []*FunctionCallExpr
 	Funcs     []AggrFunction
 	Value     Column
+	// First pair of the group, the parts of an aggregate field that are not
+	// aggregate functions (group by values) are evaluated on it
+	Pair KVPair
 }
 
 type AggregatePlan struct {
@@ -301,6 +304,7 @@ func (a *AggregatePlan) createAggrRow(kvp KVPair, ctx *ExecuteCtx) ([]*AggrPlanF
 			Expr:      r.Expr,
 			FuncExprs: r.FuncExprs,
 			Funcs:     nil,
+			Pair:      kvp,
 		}
 		if len(r.Funcs) > 0 {
 			for _, f := range r.Funcs {
@@ -487,7 +491,7 @@ func (a *AggregatePlan) completeRow(aggrRow []*AggrPlanField, ctx *ExecuteCtx) (
 		if col.IsKey {
 			row[i] = col.Value
 		} else {
-			row[i], err = col.Expr.Execute(NewKVP(nil, nil), ctx)
+			row[i], err = col.Expr.Execute(col.Pair, ctx)
 			if err != nil {
 				return nil, err
 			}
